@@ -230,9 +230,12 @@ func Performance(dpv *journal.Performance) float64 {
 func Perf(j *journal.Builder, part date.Partition) *journal.Processor {
 	ds := set.FromSlice(j.Days(part.EndDates()))
 	running := 1.0
+	starts := part.StartDates()
 	return &journal.Processor{
 		DayEnd: func(d *journal.Day) error {
-			if !part.Contains(d.Date) {
+			// with --last the partition covers less than its span: the days before the first period
+			// must not be compounded into its return
+			if !part.Contains(d.Date) || len(starts) == 0 || d.Date.Before(starts[0]) {
 				return nil
 			}
 			running *= Performance(d.Performance)
